@@ -41,31 +41,71 @@ func (c *Check) forceOnlyWhenRequested() {
 			}
 		}
 	}
-	ph, ok := force.(*ssa.Phi)
-	if !ok {
-		c.undecided("C12-R7", "force-requested", p.relFile(f.Pos()), "the value handed to the force parameter of the symbolization steps is not a merge of the option loop")
-		return
+	// where the value becomes true: constant-true edges of the merge of the option loop, or
+	// stores of true into the field that carries it (options kept in a struct, possibly filled
+	// by a helper that parses the mode)
+	type setSite struct {
+		fn  *ssa.Function
+		blk *ssa.BasicBlock
 	}
-	var setAt []*ssa.BasicBlock
-	seen := map[*ssa.Phi]bool{}
-	var walk func(ph *ssa.Phi)
-	walk = func(ph *ssa.Phi) {
-		if seen[ph] {
+	var setAt []setSite
+	switch x := force.(type) {
+	case *ssa.Phi:
+		seen := map[*ssa.Phi]bool{}
+		var walk func(ph *ssa.Phi)
+		walk = func(ph *ssa.Phi) {
+			if seen[ph] {
+				return
+			}
+			seen[ph] = true
+			for i, e := range ph.Edges {
+				switch y := e.(type) {
+				case *ssa.Const:
+					if y.Value != nil && y.Value.String() == "true" {
+						setAt = append(setAt, setSite{f, ph.Block().Preds[i]})
+					}
+				case *ssa.Phi:
+					walk(y)
+				}
+			}
+		}
+		walk(x)
+	default:
+		var owner types.Type
+		idx := -1
+		switch y := force.(type) {
+		case *ssa.Field:
+			owner, idx = y.X.Type(), y.Field
+		case *ssa.UnOp:
+			if fa, ok := y.X.(*ssa.FieldAddr); ok && y.Op == token.MUL {
+				owner, idx = fa.X.Type().Underlying().(*types.Pointer).Elem(), fa.Field
+			}
+		}
+		if idx < 0 {
+			c.undecided("C12-R7", "force-requested", p.relFile(f.Pos()), "the value handed to the force parameter of the symbolization steps is neither a merge of the option loop nor a field of an options struct")
 			return
 		}
-		seen[ph] = true
-		for i, e := range ph.Edges {
-			switch x := e.(type) {
-			case *ssa.Const:
-				if x.Value != nil && x.Value.String() == "true" {
-					setAt = append(setAt, ph.Block().Preds[i])
+		for _, g := range withHelpers(f, 2) {
+			for _, b := range g.Blocks {
+				for _, ins := range b.Instrs {
+					st, ok := ins.(*ssa.Store)
+					if !ok {
+						continue
+					}
+					fa, ok := st.Addr.(*ssa.FieldAddr)
+					if !ok || fa.Field != idx || !types.Identical(fa.X.Type().Underlying().(*types.Pointer).Elem(), owner) {
+						continue
+					}
+					if k, ok := st.Val.(*ssa.Const); ok && k.Value != nil && k.Value.String() == "true" {
+						setAt = append(setAt, setSite{g, b})
+					} else if _, isConst := st.Val.(*ssa.Const); !isConst {
+						// copied from elsewhere: treat as a set on this path
+						setAt = append(setAt, setSite{g, b})
+					}
 				}
-			case *ssa.Phi:
-				walk(x)
 			}
 		}
 	}
-	walk(ph)
 	if len(setAt) == 0 {
 		c.undecided("C12-R7", "force-requested", p.relFile(f.Pos()), "no assignment of true to the force value found")
 		return
@@ -93,9 +133,15 @@ func (c *Check) forceOnlyWhenRequested() {
 			}
 			return -1
 		}
-		reach := reachUnder(f, assume)
+		reachOf := map[*ssa.Function]map[*ssa.BasicBlock]bool{}
 		bad := ""
-		for _, b := range setAt {
+		for _, site := range setAt {
+			reach, ok := reachOf[site.fn]
+			if !ok {
+				reach = reachUnder(site.fn, assume)
+				reachOf[site.fn] = reach
+			}
+			b := site.blk
 			if reach[b] {
 				for _, ins := range b.Instrs {
 					if ins.Pos() != token.NoPos {
